@@ -165,21 +165,21 @@ type link struct {
 	s    *simkit.Sim
 	name string
 
-	mu        sync.Mutex
-	inflight  []byte // written, not yet delivered
-	arrived   []byte // delivered, not yet consumed
-	consumed  int    // stream offset of arrived[0]
-	delivered int    // total bytes delivered
-	rx        *parser
+	mu          sync.Mutex
+	inflight    []byte // written, not yet delivered
+	arrived     []byte // delivered, not yet consumed
+	consumed    int    // stream offset of arrived[0]
+	delivered   int    // total bytes delivered
+	rx          *parser
 	writeClosed bool
 	readClosed  bool
 	cut         bool
 	capacity    int
-	readable  chan struct{}
-	pumpWake  chan struct{}
-	writable  chan struct{}
-	shortMax  int
-	cutAt     int
+	readable    chan struct{}
+	pumpWake    chan struct{}
+	writable    chan struct{}
+	shortMax    int
+	cutAt       int
 }
 
 func newLink(s *simkit.Sim, name string, capacity, shortMax int) *link {
